@@ -55,18 +55,10 @@ pub struct ProgOutcome {
     pub accepted: bool,
 }
 
-/// `user_text` is put after the preamble exactly as `read_y86_hcl` does.
-pub fn run_program(user_text: &str, cycles: u32, mem: &[(u64, u8)], extra_fields: &str) -> ProgOutcome {
-    let full = format!("{}{}", hk::y86_preamble(), user_text);
-    let parsed = catch_unwind(|| hk::parse_statements(&full));
-    let sexp = match parsed {
-        Ok(Ok(s)) => Some(s),
-        _ => None,
-    };
-    let contents = FileContents::new_from_data(hk::y86_preamble(), user_text, "t.hcl");
+fn run_once(contents: &FileContents, cycles: u32, mem: &[(u64, u8)]) -> (String, bool, String) {
     let actions_out = std::cell::RefCell::new(String::new());
     let result = catch_unwind(AssertUnwindSafe(|| {
-        match parse_y86_hcl(&contents) {
+        match parse_y86_hcl(contents) {
             Err(e) => (format!("rej {}", diag_string(&hk::error_summary(&e))), false),
             Ok(program) => {
                 // the schedule the real code produced, for validation by the model
@@ -91,19 +83,47 @@ pub fn run_program(user_text: &str, cycles: u32, mem: &[(u64, u8)], extra_fields
             }
         }
     }));
-    let (result, accepted) = match result {
-        Ok(r) => r,
+    match result {
+        Ok((r, a)) => (r, a, actions_out.into_inner()),
         Err(p) => {
             let msg = if let Some(s) = p.downcast_ref::<String>() { s.clone() }
                       else if let Some(s) = p.downcast_ref::<&str>() { s.to_string() } else { String::from("?") };
-            (format!("PANIC {}", msg), false)
+            (format!("PANIC {}", msg), false, String::new())
         }
+    }
+}
+
+/// `user_text` is put after the preamble exactly as `read_y86_hcl` does.  The program is built and run
+/// `repeats` times (every build gets fresh hash seeds); all runs must give the same result.
+pub fn run_program_rep(user_text: &str, cycles: u32, mem: &[(u64, u8)], extra_fields: &str, repeats: u32) -> ProgOutcome {
+    let full = format!("{}{}", hk::y86_preamble(), user_text);
+    let parsed = catch_unwind(|| hk::parse_statements(&full));
+    let sexp = match parsed {
+        Ok(Ok(s)) => Some(s),
+        _ => None,
     };
+    let contents = FileContents::new_from_data(hk::y86_preamble(), user_text, "t.hcl");
+    let (mut result, accepted, acts) = run_once(&contents, cycles, mem);
+    let mut schedules: Vec<String> = vec![acts];
+    for _ in 1..repeats {
+        let (r2, _, a2) = run_once(&contents, cycles, mem);
+        let norm = |x: &str| -> String { if x.starts_with("rej") { x.split(' ').map(|k| if k.starts_with("WireLoop") { "WireLoop" } else { k }).collect::<Vec<_>>().join(" ") } else { x.to_string() } };
+        if norm(&r2) != norm(&result) {
+            result = format!("NONDETERMINISTIC first: {} other: {}", result, r2);
+            break;
+        }
+        if !schedules.contains(&a2) { schedules.push(a2); }
+    }
     let request = sexp.map(|s| {
         let mut memf = String::from("(mem");
         for (a, b) in mem { write!(memf, " ({} {})", a, b).unwrap(); }
         memf.push(')');
-        format!("(prog {} {} (cycles {}) {} {} {} (stmts {}))", flags_sexp(), cls_sexp(user_text), cycles, memf, extra_fields, actions_out.borrow(), s)
+        format!("(prog {} {} (cycles {}) {} {} (nsched {}) {} (stmts {}))", flags_sexp(), cls_sexp(user_text), cycles, memf,
+                extra_fields, schedules.len(), schedules.join(" "), s)
     });
     ProgOutcome { request, result, accepted }
+}
+
+pub fn run_program(user_text: &str, cycles: u32, mem: &[(u64, u8)], extra_fields: &str) -> ProgOutcome {
+    run_program_rep(user_text, cycles, mem, extra_fields, 1)
 }
